@@ -85,3 +85,30 @@ func Pairs[M ~map[K]V, K comparable, V any](m M) []KV[K, V] {
 	}
 	return out
 }
+
+// ---- scheduling seam (C15) ----
+
+// Scheduler is attached by the controlled-scheduler harness. When nil, the vsync shim delegates to
+// the real sync package and Yield is a no-op.
+type Scheduler interface {
+	// Point is a scheduling point of the calling thread; it returns when the thread is scheduled again.
+	Point(kind string, obj any)
+	// Block parks the calling thread until Wake(obj) (it returns when the thread runs again).
+	Block(obj any)
+	// Wake makes the threads blocked on obj runnable.
+	Wake(obj any)
+}
+
+// Sched is the attached scheduler (nil = free running).
+var Sched Scheduler
+
+// YieldPoints counts the executed Yield calls (evidence that the seam is live).
+var YieldPoints int64
+
+// Yield is inserted before every statement that touches a package-level variable.
+func Yield(name string) {
+	if Sched != nil {
+		YieldPoints++
+		Sched.Point("global:"+name, nil)
+	}
+}
